@@ -29,7 +29,7 @@ func lookupIntrinsic(fn *ssa.Function, name string) intrinsic {
 	n := fn.Name()
 	if len(n) > 1 && n[0] == 'v' && n[1] >= 'A' && n[1] <= 'Z' && fn.Signature.Recv() == nil {
 		if h, ok := harnessPrims[n]; ok {
-			if n == "vSymbolic" || n == "vTier" {
+			if n == "vSymbolic" || n == "vTier" || n == "vInterp" {
 				return h
 			}
 			return func(in *Interp, fn *ssa.Function, a []Value, s ssa.Instruction) (Value, bool) {
@@ -90,6 +90,21 @@ func init() {
 			in.ex.Assert(id, in.term(a[1]))
 			return unit(), true
 		},
+		"vAssumeI": func(in *Interp, fn *ssa.Function, a []Value, s ssa.Instruction) (Value, bool) {
+			// assumption inside an interpreter-only section (after `if !vInterp() { return }`):
+			// natively the harness has already returned, so a violated assumption ends the
+			// concrete run like a normal end
+			c := in.term(a[0])
+			if in.ex.concrete {
+				if c.IsConst() && c.u == 0 {
+					in.ex.trace = append(in.ex.trace, "#assume-violated")
+					panic(&pathEnd{"istop", "interpreter-only assumption violated"})
+				}
+				return unit(), true
+			}
+			in.ex.Assume(c)
+			return unit(), true
+		},
 		"vAssertI": func(in *Interp, fn *ssa.Function, a []Value, s ssa.Instruction) (Value, bool) {
 			// assertion on an observation that only exists under the engine (e.g. a recorder stub):
 			// decided by the solver, replayed by concrete re-execution in the interpreter
@@ -134,6 +149,9 @@ func init() {
 			t := in.term(a[0])
 			in.noMerge = !(t.IsConst() && t.u == 1) || os.Getenv("VERIF_NOMERGE") != ""
 			return unit(), true
+		},
+		"vInterp": func(in *Interp, fn *ssa.Function, a []Value, s ssa.Instruction) (Value, bool) {
+			return in.tt.Bool(true), true
 		},
 		"vSymbolic": func(in *Interp, fn *ssa.Function, a []Value, s ssa.Instruction) (Value, bool) {
 			return in.tt.Bool(!in.ex.concrete), true
